@@ -38,8 +38,9 @@ TRUSTED = [
     "(C09/C02/C03), never with the engine under test",
     "hash functions of the driver are the shared Lean models, validated against hashlib each run",
     "hand models of btclib's number/bool/span code are tied by correspondence only",
-    "the btclib-shaped loop model (Model/C08/Btclib.lean) is tied to engine/script.py by the bt.eval* streams only; the "
-    "tapscript loop (engine/tapscript.py) has no btclib-shaped model: core.execwit / core.verify_input streams only",
+    "the btclib-shaped loop models (Model/C08/Btclib.lean for engine/script.py, Model/C08/BtclibTap.lean for "
+    "engine/tapscript.py + taproot.parse's pre-scan) are tied to the code by the bt.eval* / bt.tapscript streams only; the "
+    "tapscript model has no loop-level refinement theorem (op level: OP_CHECKSIG; dispatch list)",
 ]
 ASSUMPTIONS = [
     "flag sets are closed under Core's assertions (WITNESS => P2SH, CLEANSTACK => P2SH and WITNESS)",
@@ -91,6 +92,8 @@ def impl(line: str) -> str:
         return SP.impl_eval(t)
     if op == "bteval":
         return SP.impl_eval(["eval", *t[1:8], "0", "deny"])
+    if op == "bttap":
+        return SP.impl_eval(["execwit", "tapscript", *t[1:8], "deny"])
     if op == "verify":
         return SP.impl_verify(t)
     return "bad-op"
@@ -267,7 +270,7 @@ def _scope_before(script: bytes) -> bool:
     return not any(o in SIG_OPS for o, _, _ in S.op_code_spans(script))
 
 
-def bt_stream(ctx, name, lines):
+def bt_stream(ctx, name, lines, legacy=True):
     """the btclib-shaped Lean model against the real engine (correspondence).  `op_checksig` of the model is Core's
     per-signature sequence over a checker the harness answers (`need <query>` protocol, as for the `core.*` streams), so a
     difference that a predicate on the input recognises as one of the recorded divergence classes of btclib's
@@ -300,13 +303,15 @@ def bt_stream(ctx, name, lines):
         io = impl(ln)
         st["cases"] += 1
         ctx.seen(name, ln, not io.startswith("err"))
-        ctx.count(name, io.split(" ")[0] + ("" if not io.startswith("err") else " " + io.split(" ")[1]))
+        ctx.count(name, " ".join(io.split(" ")[:1 if not io.startswith("err") else 2]))
         ctx.traces += 1
         if outs[i] != io:
             st["mismatches"] += 1
             key = None
             if len(ln.split(" ")) > 8:
                 key = SP.classify_eval(SP.bt_as_eval(work[i]), io, outs[i])
+            if not legacy and key not in SP.KNOWN_CLASSES:
+                key = None
             if key in SP.KNOWN_CLASSES:
                 ctx.fail("property", name, f"engine and btclib-shaped model over Core's per-signature sequence differ on `{ln[:400]}`",
                          key=key, op_line=ln, impl=io[:1000], model=outs[i][:1000])
@@ -317,6 +322,16 @@ def bt_stream(ctx, name, lines):
         ctx.sample({"stream": name, "op": lines[0][:300], "impl": impl(lines[0])[:300], "model": (outs[0] or "")[:300]})
     ctx.count(name + ".coverage", "unsupported", n_uns)
     ctx.count(name + ".coverage", "covered", len(lines) - n_uns)
+    if not legacy:
+        names = {0xAC: "OP_CHECKSIG", 0xAD: "OP_CHECKSIGVERIFY", 0xBA: "OP_CHECKSIGADD", 0xAB: "OP_CODESEPARATOR"}
+        for ln, o in zip(lines, outs):
+            try:
+                ops = {op for op, _, _ in S.op_code_spans(unhx(ln.split(" ")[2]))} & set(names)
+            except Exception:  # noqa: BLE001
+                ops = set()
+            for op in ops:
+                ctx.count(name + ".sigops", f"{names[op]}:{'accepted' if o == 'ok' else 'refused'}")
+        return
     # what fraction of the generated programs lies inside the set the loop-level theorem
     # `btclib_eval_refines_core_partial` speaks about (`Sim.covered`, decided by the driver), and inside the set it
     # spoke about before the signature op codes entered it
